@@ -10,13 +10,15 @@ R == Rec[l]
 \*   C02  a reported success must be allowed by the model (no verification of tampered content, no digest
 \*        success while a recorded digest cannot match)
 \*   C08  after sign / clear the recorded header digest is true again, so with an untouched payload
-\*        verify_digests must succeed
+\*        verify_digests must succeed; and it is *recorded*: present in the signature header and equal to the
+\*        digest of the header as written - after a signing operation that failed, too
 \*   C10  a package with true digests signed by k verifies with k
 CONSTANT Mode
 Matches(o) == /\ o.panicked = FALSE
               /\ CASE Mode = "C02" -> /\ (o.digests_ok => Obs'.digests_ok)
                                        /\ \A k \in Keys : o.verifies[k] => Obs'.verifies[k]
-                   [] Mode = "C08" -> (Obs'.digests_ok => o.digests_ok)
+                   [] Mode = "C08" -> /\ (Obs'.digests_ok => o.digests_ok)
+                                       /\ (Obs'.hdr_digest_true => o.hdr_digest_true)
                    [] Mode = "C10" -> \A k \in Keys : Obs'.verifies[k] => o.verifies[k]
 Good == UNCHANGED <<rej, nrej>>
 Bad(w) == LET y == NoteReject(rej, nrej, l, w) IN rej' = y.rej /\ nrej' = y.nrej
@@ -26,6 +28,7 @@ Start == /\ R.event = "Start" /\ l' = l + 1
          /\ IF Matches(R.obs) THEN Good ELSE Bad("Start")
 Walk == /\ R.event = "Walk" /\ l' = l + 1
         /\ (  (R.op = "sign" /\ R.key \in Keys /\ Sign(R.key)) \/ (R.op = "clear" /\ Clear) \/ (R.op = "reparse" /\ Reparse)
+           \/ (R.op = "sign_fail" /\ SignFail)
            \/ (R.op = "tamper_header" /\ TamperHeader) \/ (R.op = "tamper_payload" /\ TamperPayload))
         /\ IF Matches(R.obs) THEN Good ELSE Bad(R.op)
 Skip == R.event = "Skip" /\ l' = l + 1 /\ UNCHANGED rvars /\ Good          \* an inapplicable tamper: stuttering
